@@ -114,7 +114,7 @@ Definition pkt_of (o : obs) (idsz : Z * Z) : pkt :=
 Definition inp_of (o : obs) (it : Z * Z * Z) : inp :=
   match it with
   | (kind, id, _) =>
-      if kind =? 0 then IFrame (mkpkt id (match lookup2 id (o_inoracle o) with Some n => n | None => 0 end) true)
+      if (kind =? 0) || (kind =? 7) || (kind =? 8) then IFrame (mkpkt id (match lookup2 id (o_inoracle o) with Some n => n | None => 0 end) true)
       else IErr kind
   end.
 
